@@ -17,6 +17,10 @@ pub const REGULAR_DELIMS: &[(&str, &str)] = &[
     ("«", "»"),
     ("/*★", "★*/"),
     ("😀", "😀😀"),
+    // padded comment style: the delimiters themselves begin / end with a blank
+    ("<!-- ", " -->"),
+    ("/* ", " */"),
+    ("%%", "%%"),
 ];
 
 /// Hostile spellings, used for totality and tokenization only.
